@@ -497,6 +497,7 @@ inductive SRes where
   | ok (out : List Byte)
   | oob
   | nofuel
+  deriving DecidableEq
 
 mutual
 /-- label `checkStr` (outer loop); `out` = bytes written so far -/
